@@ -33,7 +33,7 @@ RULE = ('images generated per format from trait vectors (each of the 64 qcow2 in
         'LUKS versions, truncation at every structure boundary) x 2-3 chunk schedules, fed directly, through '
         'InspectWrapper and through cli.main (in-process + real subprocess sample); injected exceptions in every '
         'registered check. non-trivial = MUST-REJECT or MUST-ACCEPT case; distinct by (spec, path, schedule)')
-REQUIRED_CLAUSES = ['interleaved-instances', 'must-reject', 'must-accept', 'responsible-check-named', 'fault-in-check-is-failure',
+REQUIRED_CLAUSES = ['carrier-independent', 'interleaved-instances', 'must-reject', 'must-accept', 'responsible-check-named', 'fault-in-check-is-failure',
                     'fault-inside-check-code-is-failure',
                     'cli-exit-status', 'cli-subprocess', 'mbr-family', 'only-documented-exceptions',
                     'no-safety-check-declared']
@@ -98,8 +98,8 @@ def reference(spec):
     return data, name, verdict, resp, truth
 
 
-def observe_direct(cls, data, cuts):
-    res = sl.feed(cls, data, cuts, monitor=False)
+def observe_direct(cls, data, cuts, carrier='bytes'):
+    res = sl.feed(cls, data, cuts, monitor=False, carrier=carrier)
     if res['raised']:
         return 'raised:' + res['raised'], res['inspector']
     return sl.safety_outcome(res['inspector']), res['inspector']
@@ -149,6 +149,16 @@ def eval_image(ctx, case):
         outcome, insp = observe_direct(cls, data, cuts)
         kn = 'F1' if (text_f1 and cuts and cuts[0] < len(data)) else None
         judge(ctx, dict(case, failing=[klass, cuts]), 'direct', verdict, resp, outcome, kn)
+        if len(cuts) <= 2000 and (len(data) + len(cuts)) % 3 == 0:
+            # the same stream handed over in ONE reused bytearray / as memoryview slices of one buffer (the readinto()
+            # idiom); the buffer is overwritten after every eat_chunk, so the decision must rest on what was copied
+            for carrier in ('bytearray', 'memoryview'):
+                ctx.clause('carrier-independent')
+                o2, _i = observe_direct(cls, data, cuts, carrier)
+                if o2 != outcome:
+                    ctx.fail('carrier-independent', dict(case, failing=[klass, cuts], carrier=carrier),
+                             {'bytes_chunks': outcome, carrier + '_chunks': o2}, known=kn)
+                judge(ctx, dict(case, failing=[klass, cuts], carrier=carrier), 'direct', verdict, resp, o2, kn)
     for klass, cuts in case.get('wrapper_schedules', []):
         ctx.case((spec['gen'], data, 'wrapper', tuple(cuts)), nontrivial=verdict != 'dontcare')
         res = sl.feed_wrapper(data, cuts, monitor=False)
